@@ -1,7 +1,9 @@
 /-
   C11 (MSPriorityQueue part) — "MSPriorityQueue never loses or duplicates an item, push fails only when capacity
   items are present, and every history in which no push overlaps a pop is linearizable to a bounded max-priority
-  queue."
+  queue."  PROVED here: lock discipline, conservation of the multiset, push fails only when full, heap order and
+  shape at quiescence.  NOT proved: the history-level clause (linearizability of overlap-free histories): only
+  `C11_mspq_sequential_linearizable_partial`, a state-level statement; that clause is decided by judged histories.
 
   Theorems about the atomic-step machine `Algo/MSPQ` of `cds::intrusive::MSPriorityQueue` (one step = one atomic
   operation on a lock word of `cds::sync::spin` followed by the plain code up to the next one), for EVERY schedule,
